@@ -178,6 +178,32 @@ pub fn credential_validation(_cex: &Value) -> Result<String, String> {
     let cred2 = credential(OTHER, HOLDER, ts(t0), Some(ts(t0 + 1000)));
     let claims2 = cred2.serialize_jwt(None).unwrap();
     expect("credential issuer differs from the verifying method's DID", run(&sign_jwt(&claims2, Some(&kid), None, &method_key(ISSUER, "#assert")), &issuer, &base(), FailFast::FirstError), false);
+    // several trusted issuers (verify_signature): the credential's issuer has to be the DID of the method that verified
+    {
+      let vs = |jwt: &Jwt, docs: &[CoreDocument]| validator.verify_signature::<_, Object>(jwt, docs, &JwsVerificationOptions::default()).is_ok();
+      let other_kid = format!("{OTHER}#assert");
+      let forged = sign_jwt(&claims2, Some(&kid), None, &method_key(ISSUER, "#assert")); // names OTHER, signed by ISSUER
+      let honest_other = sign_jwt(&claims2, Some(&other_kid), None, &method_key(OTHER, "#assert"));
+      for (name, jwt, docs, want) in [
+        ("names trusted B, signed by trusted A (A,B)", &forged, vec![issuer.clone(), other_doc.clone()], false),
+        ("names trusted B, signed by trusted A (B,A)", &forged, vec![other_doc.clone(), issuer.clone()], false),
+        ("honest token of A among (A,B)", &good, vec![issuer.clone(), other_doc.clone()], true),
+        ("honest token of B among (A,B)", &honest_other, vec![issuer.clone(), other_doc.clone()], true),
+        ("honest token of B, only A trusted", &honest_other, vec![issuer.clone()], false),
+      ] {
+        if vs(jwt, &docs) != want {
+          log.borrow_mut().push(format!("verify_signature with several trusted issuers: {name}: {}", if want { "rejected" } else { "accepted" }));
+        }
+      }
+    }
+    // an expiration that sits only inside vc (no exp claim) must not be dropped: expired credential stays rejected
+    {
+      let mut v: serde_json::Value = serde_json::from_str(&claims).unwrap();
+      v.as_object_mut().unwrap().remove("exp");
+      v["vc"]["expirationDate"] = serde_json::json!(ts(t0 + 1000).to_rfc3339());
+      let jwt = sign_jwt(&v.to_string(), Some(&kid), None, &method_key(ISSUER, "#assert"));
+      expect("vc.expirationDate without exp, expiry bound after it", run(&jwt, &issuer, &base().earliest_expiry_date(ts(t0 + 5000)), FailFast::FirstError), false);
+    }
     // subject-holder relationship
     let holder = Url::parse(HOLDER).unwrap();
     let stranger = Url::parse(OTHER).unwrap();
